@@ -1,7 +1,7 @@
 //! C05 — a (re)joining node resynchronises to exactly the primary's data.
 use crate::cluster::Cluster;
 use crate::props::c04::{boot_cluster, chooser, cluster_dump};
-use crate::report::{explore_with, replay_guarded, Ctx, Outcome, Report};
+use crate::report::{enumerate, explore_with, replay_guarded, Ctx, Outcome, Report};
 use nundb::bo::Request;
 use proptest::prelude::*;
 use proptest::sample::select;
@@ -450,7 +450,41 @@ pub fn run_case(ctx: &Ctx, case: &Case) -> Outcome {
     out
 }
 
+/// every "while away" script of 1-3 letters over {create d1, set d1.a, set d0.a, remove d0.a, snapshot d1, snapshot d0,
+/// increment d0.n}, for a joiner that snapshotted d0 before it left (so that it comes back with its database and asks
+/// for an incremental synchronisation), clean and killed departure
+fn away_scripts(max_len: usize) -> Vec<Case> {
+    let letters: Vec<Cmd> = vec![
+        Cmd::CreateDb { db: 1, strategy: "newer".into() },
+        Cmd::Set { db: 1, k: "a".into(), v: "x".into() },
+        Cmd::Set { db: 0, k: "a".into(), v: "y".into() },
+        Cmd::Remove { db: 0, k: "a".into() },
+        Cmd::Snapshot { db: 1 },
+        Cmd::Snapshot { db: 0 },
+        Cmd::Inc { db: 0 },
+    ];
+    let mut out = vec![];
+    let n = letters.len();
+    for len in 1..=max_len {
+        for mut i in 0..n.pow(len as u32) {
+            let mut away = vec![];
+            for _ in 0..len {
+                away.push(letters[i % n].clone());
+                i /= n;
+            }
+            for leave in ["clean", "kill"] {
+                out.push(Case { before: vec![Cmd::Snapshot { db: 0 }], away: away.clone(), during: vec![], leave: leave.to_string(), disk: "kept".to_string(), joiner_snapshots: true, schedule: vec![] });
+            }
+        }
+    }
+    out
+}
+
 pub fn run(ctx: &Ctx, rep: &mut Report) {
+    enumerate(ctx, rep, "away-scripts", away_scripts(ctx.amount(3, 4) as usize).into_iter(), |c| run_case(ctx, c));
+    if !rep.failures.is_empty() {
+        return;
+    }
     let n = ctx.amount(1600, 40_000);
     explore_with(ctx, rep, "rejoin-histories", n, 200, case_strategy(), |c| run_case(ctx, c));
 }
